@@ -249,9 +249,36 @@ def next_serial():
     return W.serial
 
 
+_GLOBALS = {}      # module name -> [(container, import-time copy)]
+
+
+def _restore_module_globals():
+    """Every run starts from the process state a fresh interpreter would have: module-level containers of circuits.* (caches,
+    registries) are put back to what they held when the module was first seen.  On the pinned tree nothing mutates them; a
+    change that introduces per-process shared state must not leak from one simulated run into the next (and into its replay)."""
+    import collections
+    for name, mod in list(sys.modules.items()):
+        if mod is None or not (name == 'circuits' or name.startswith('circuits.')):
+            continue
+        snap = _GLOBALS.get(name)
+        if snap is None:
+            snap = _GLOBALS[name] = []
+            for k, v in list(vars(mod).items()):
+                if k.startswith('__'):
+                    continue
+                if isinstance(v, (dict, list, set, collections.deque)):
+                    snap.append((v, v.copy()))
+            continue
+        for cur, orig in snap:
+            if cur != orig:
+                cur.clear()
+                (cur.update if isinstance(cur, (dict, set)) else cur.extend)(orig)
+
+
 def reset(ctx=None, task_mode=None):
     """Fresh world for one run.  Draws the per-run salt and task-order mode from the tape."""
     install()
+    _restore_module_globals()
     W.now = EPOCH
     W.ctx = ctx
     W.serial = 0
